@@ -316,7 +316,7 @@ def r6_top_m(ctx):
                 ctx.check(oks, f, st, f"{f.cls.name}: component 0 -> elected=, component 1 -> remaining=", f"({e0}, {e1}, {e2})",
                           f"selector components are recorded as {why}")
     if n < 4:
-        ctx.violated(None, None, "top-m selector call sites", f"only {n} single-round rules select through elect_cands_from_set_ranking")
+        ctx.vanished("top-m selector call sites" + ": " + f"only {n} single-round rules select through elect_cands_from_set_ranking")
     # inside the selector: groups are taken from index 0 upward
     pm = astx.parents(sel.node)
     loop = [x for x in astx.walk_own(sel.node) if isinstance(x, ast.While)]
